@@ -366,7 +366,11 @@ impl ValueSetT for ValueSetKeyInternal {
         for (k_other, v_other) in b.iter() {
             if let Some(v_self) = self.map.get_mut(k_other) {
                 // Revoked is always a greater status than retained or valid.
-                if v_other.status > v_self.status {
+                // Between two records of the same status the earliest status change wins,
+                // so that the result does not depend on the order of merges.
+                if v_other.status > v_self.status
+                    || (v_other.status == v_self.status && v_other.status_cid < v_self.status_cid)
+                {
                     *v_self = v_other.clone();
                 }
             } else {
@@ -390,7 +394,11 @@ impl ValueSetT for ValueSetKeyInternal {
         for (k_other, v_other) in b.iter() {
             if let Some(v_self) = map.get_mut(k_other) {
                 // Revoked is always a greater status than retained or valid.
-                if v_other.status > v_self.status {
+                // Between two records of the same status the earliest status change wins,
+                // so that the result does not depend on the order of merges.
+                if v_other.status > v_self.status
+                    || (v_other.status == v_self.status && v_other.status_cid < v_self.status_cid)
+                {
                     *v_self = v_other.clone();
                 }
             } else {
